@@ -89,17 +89,19 @@ def term_ok(src, shape, k, tk=""):
 
 
 def rnd_table(rng, kind):
+    """Random finite table of a stage. Tables are biased towards letting most elements through:
+    with three stages in a row, unbiased tables leave almost nothing to order, merge or count."""
     if kind == "map":
         return {"k": "map", "t": [rng.randrange(V) for _ in range(V)]}
     if kind == "filter":
-        d = rng.choice([0.0, 0.2, 0.5, 0.8, 1.0])
+        d = rng.choice([0.0, 0.5, 0.7, 0.85, 0.85, 1.0, 1.0])
         return {"k": "filter", "t": [1 if rng.random() < d else 0 for _ in range(V)]}
     if kind == "fmap":
-        d = rng.choice([0.0, 0.3, 0.6, 1.0])
+        d = rng.choice([0.0, 0.5, 0.7, 0.85, 1.0, 1.0])
         return {"k": "fmap", "t": [rng.randrange(V) if rng.random() < d else -1 for _ in range(V)]}
     if kind == "flat":
-        mx = rng.choice([1, 2, FANMAX])
-        return {"k": "flat", "tt": [[rng.randrange(V) for _ in range(rng.randint(0, mx))] for _ in range(V)]}
+        lo, mx = rng.choice([(0, 1), (0, 2), (1, 2), (1, FANMAX), (0, FANMAX), (1, 1)])
+        return {"k": "flat", "tt": [[rng.randrange(V) for _ in range(rng.randint(lo, mx))] for _ in range(V)]}
     raise ValueError(kind)
 
 
@@ -338,34 +340,42 @@ def monitor(traces, clauses, workdir, par=8, timeout=1800):
     pending = [t for t in traces if os.path.getsize(t) > 0]
     running = []
     t0 = time.time()
-    while pending or running:
-        while pending and len(running) < par:
-            tf = pending.pop()
-            pr, meta = tlc_start("TraceMon.tla", "TraceMon.cfg", workdir, env={"TRACE": tf, "MONCFG": cfgf})
-            running.append((pr, meta, tf, time.time()))
-        pr, meta, tf, ts = running.pop(0)
-        try:
-            out, _ = pr.communicate(timeout=max(1, timeout - (time.time() - ts)))
-        except subprocess.TimeoutExpired:
-            pr.kill()
-            raise ToolError(f"TLC timed out validating {tf}")
-        shutil.rmtree(meta, ignore_errors=True)
-        consumed = False
-        for line in out.splitlines():
-            mm = VIOL_RE.match(line.strip())
-            if mm:
-                viols.append({"clause": mm.group(1), "run": int(mm.group(2)), "line": int(mm.group(3)),
-                              "detail": mm.group(4), "trace": tf})
-            mc = CONS_RE.match(line.strip())
-            if mc:
-                consumed = True
-                stats["events"] += int(mc.group(1))
-                stats["runs"] += int(mc.group(2))
-                stats["terminals"] += int(mc.group(3))
-        if not consumed:
-            log(out[-3000:])
-            raise ToolError(f"TraceMon did not consume {tf} (monitor or trace malformed)")
-        stats["files"] += 1
+    try:
+        while pending or running:
+            while pending and len(running) < par:
+                tf = pending.pop()
+                pr, meta = tlc_start("TraceMon.tla", "TraceMon.cfg", workdir, env={"TRACE": tf, "MONCFG": cfgf})
+                running.append((pr, meta, tf, time.time()))
+            pr, meta, tf, ts = running.pop(0)
+            try:
+                out, _ = pr.communicate(timeout=max(1, timeout - (time.time() - ts)))
+            except subprocess.TimeoutExpired:
+                pr.kill()
+                raise ToolError(f"TLC timed out validating {tf}")
+            shutil.rmtree(meta, ignore_errors=True)
+            consumed = False
+            for line in out.splitlines():
+                mm = VIOL_RE.match(line.strip())
+                if mm:
+                    viols.append({"clause": mm.group(1), "run": int(mm.group(2)), "line": int(mm.group(3)),
+                                  "detail": mm.group(4), "trace": tf})
+                mc = CONS_RE.match(line.strip())
+                if mc:
+                    consumed = True
+                    stats["events"] += int(mc.group(1))
+                    stats["runs"] += int(mc.group(2))
+                    stats["terminals"] += int(mc.group(3))
+            if not consumed:
+                log(out[-3000:])
+                raise ToolError(f"TraceMon did not consume {tf} (monitor or trace malformed)")
+            stats["files"] += 1
+    finally:
+        for (pr, meta, tf, ts) in running:
+            try:
+                pr.kill()
+            except Exception:
+                pass
+            shutil.rmtree(meta, ignore_errors=True)
     stats["tlc_s"] = round(time.time() - t0, 2)
     return viols, stats
 
@@ -447,3 +457,98 @@ def write_evidence(prop, tier, seed, coverage, wall, violations, assumptions):
           "assumptions": assumptions, "wall_s": round(wall, 2), "violations": violations}
     with open(os.path.join(VERIF, "evidence", f"{prop}.json"), "w") as f:
         json.dump(ev, f, indent=1)
+
+
+# ------------------------------------------------------------------ how often each clause really applied
+
+COLLECT = ("collect_vec", "collect", "collect_into")
+FINDS = ("find", "first", "any", "all", "find_idx", "first_idx")
+REDUCES = ("reduce", "fold", "sum", "min", "max", "min_by", "max_by", "min_by_key", "max_by_key")
+
+
+def clause_applications(traces, clauses):
+    """Counts, per clause, the events at which its antecedent held (so that the clause was
+    really evaluated, not vacuously true). Evidence only; computed from the recorded traces."""
+    n = {c: 0 for c in clauses}
+    for tf in traces:
+        p, built = None, False
+        with open(tf) as f:
+            for line in f:
+                try:
+                    ev = json.loads(line)
+                except Exception:
+                    continue
+                e = ev.get("e")
+                if e == "prog":
+                    p, built = ev["p"], False
+                    par = {o["k"]: o["v"] for o in p["ops"] if o["k"] in ("nt", "cs", "csmin")}
+                    nt1 = par.get("nt") == 1
+                    exact = "cs" in par and par["cs"] > 0
+                    continue
+                if p is None:
+                    continue
+                k = p["term"]["k"]
+                nocrash = p.get("cs", -1) < 0
+
+                def hit(c):
+                    if c in n:
+                        n[c] += 1
+                if e == "built":
+                    built = True
+                    hit("C16_LazyUntilTerminal")
+                elif e == "te":
+                    if nocrash:
+                        hit("C15_NoPanic"); hit("C15_SameAsSequential")
+                        if k in COLLECT and not p["term"]["pre"]:
+                            hit("C01_OrderedCollect")
+                        if k in FINDS:
+                            hit("C02_FirstMatch")
+                        if k in REDUCES:
+                            hit("C03_ReduceAll")
+                        if k == "count":
+                            hit("C04_Count")
+                        if k == "for_each":
+                            hit("C04_ForEach")
+                        if k == "collect_into":
+                            hit("C06_AppendsAfterPrefix")
+                        if k == "collect_x":
+                            hit("C07_Permutation")
+                        if k not in FINDS:
+                            hit("C05_ExactlySequential")
+                        if nt1:
+                            hit("C09_SequentialValue"); hit("C09_StageOrder")
+                            if k in FINDS:
+                                hit("C10_SequentialStopsAtMatch")
+                    else:
+                        hit("C14_PanicPropagates")
+                elif e == "call":
+                    hit("C05_NeverMoreThanSequential"); hit("C08_ThreadsPerClosure")
+                    if nt1:
+                        hit("C09_OnCaller"); hit("C08_SequentialOnCaller")
+                    if k in FINDS and ev.get("a", 0) > 0:
+                        hit("C10_BoundedAfterMatch")
+                    if exact and ev.get("a", 0) > 0:
+                        hit("C11_AlignedBlockOneThread")
+                elif e == "wbegin":
+                    hit("C08_LiveWorkers")
+                    if exact:
+                        hit("C11_ChunkGiven")
+                elif e in ("pre_decide", "pre_chunk", "before_join"):
+                    hit("C08_Spawned")
+                elif e == "red":
+                    hit("C08_ReduceOpThreads")
+                elif e == "nx":
+                    hit("C05_SourceInOrder"); hit("C05_NoReentrancy")
+                    if exact:
+                        hit("C11_BurstIsChunk")
+                elif e == "par":
+                    hit("C12_ParamsPropagate")
+                elif e == "tok":
+                    hit("C13_NoLeakNoDouble" if nocrash else "C14_NoBadDrop")
+                elif e == "op":
+                    hit("C16_LazyBuild" if ev.get("k") != "src" else "C16_LazySource")
+                elif e == "run_begin" and built:
+                    hit("C16_TerminalParams")
+                elif e in ("hang", "abort"):
+                    hit("C14_NoHangNoAbort"); hit("C10_Terminates"); hit("C15_NoAbort")
+    return n
